@@ -286,6 +286,16 @@ def trained_one(ctx, focus, name, pws, ngram, cov, dist):
             levels_in_order = lv == sorted(lv)
     dist.setdefault('trained_omen_levels_in_numeric_order', []).append(levels_in_order)
     pcfg = common.load_grammar(rd)
+    # the probabilities attached to the pre-terminals are products of the numbers in the files: the base probabilities the guesser
+    # holds are the numbers of grammar.txt themselves (no flag given: nothing is rescaled)
+    gtxt = [ln.rsplit('\t', 1) for ln in open(os.path.join(rd, 'Grammar', 'grammar.txt'), encoding='utf-8').read().split('\n') if ln]
+    want_b = [common.f2h(float(p_)) for _, p_ in gtxt]
+    got_b = [common.f2h(b['prob']) for b in pcfg.base]
+    if want_b != got_b:
+        k_ = next((j for j, (x, y) in enumerate(zip(want_b, got_b)) if x != y), min(len(want_b), len(got_b)))
+        violations.append({'property': focus, 'kind': 'loaded-base-probability-differs-from-file', 'index': k_,
+                           'file': gtxt[k_][1] if k_ < len(gtxt) else None, 'loaded': repr(pcfg.base[k_]['prob']) if k_ < len(pcfg.base) else None,
+                           'witness': wit})
     pq = corr_pq.fresh_queue(pcfg)
     prev, popped = None, 0
     while popped < ctx.scale(1500, 20000):
@@ -309,6 +319,13 @@ def trained_order_cases(ctx, focus, violations, dist):
     import gen_passwords
     rng = ctx.rng
     corpora = [('omen-density', gen_passwords.omen_density_corpus(), 4, 0.6)]
+    # whatever the seed: lists whose digit list ends in a long tail of items seen once, for totals at which the rounded quotients
+    # count / total do not add up to exactly 1.0 (49, 98, 103, 107) - the last lines of a file tie, none may stand above its neighbour;
+    # and a list whose base-structure probabilities add up to 0.9999999999999999
+    for total, a, b in ((49, 6, 5), (98, 30, 20), (103, 40, 13), (107, 40, 17)):
+        tail = ['summer%02d' % (12 + k) for k in range(total - a - b)]
+        corpora.append((f"tail-of-ones-{total}", ['summer10'] * a + ['summer11'] * b + tail, 4, 0.6))
+    corpora.append(('base-sum-below-one', ['hello'] * 12 + ['hello1'], 4, 0.6))
     for i in range(ctx.scale(2, 8)):
         corpora.append((f"random{i}", gen_passwords.gen_list(rng, n=rng.randint(20, 60), tame=True, dup_rate=0.5), rng.choice([2, 3, 4]),
                         rng.choice([0.6, 0.5, 0.9, 0.25])))
